@@ -119,6 +119,12 @@ def _work_rand(args):
             ev = []
             try:
                 build = rng.integers(0, 256, (nm, 3)) * g
+                # the array the calculator is built with only fixes the sizes: its element type (lattice integers, single
+                # precision) must not leak into later evaluations
+                if tid % 3 == 0:
+                    build = rng.integers(0, 256, (nm, 3))
+                elif tid % 3 == 1:
+                    build = build.astype(np.float32)
                 calc = Chi2Calculator(fixed * g, build, restr if restr else None)
                 mbuf = np.zeros((nm, 3))        # one buffer refilled in place: the value follows the contents, not the object
                 for _ in range(int(rng.integers(2, 5))):
